@@ -343,7 +343,8 @@ def adopt(st, snap):
         if isinstance(v, dict):
             adopt(cur, v)
         elif isinstance(v, list):
-            if v and isinstance(v[0], dict):
+            if (v and isinstance(v[0], dict)) or (cur and isinstance(cur[0], dict)):
+                # list of objects: the objects stay (a random-size list may expose fewer of them after a call)
                 for i, sv in enumerate(v):
                     if i < len(cur):
                         adopt(cur[i], sv)
